@@ -1,14 +1,21 @@
 #!/bin/sh
-# Re-verify every seeded change against the current /repo: apply, run the property's quick check, expect exit 1, revert.
+# Re-verify every seeded change against the current /repo HEAD: the change is applied in a scratch worktree of /repo
+# (so /repo itself is never left modified), the property's quick check is run against that tree (VERIF_REPO) with its
+# evidence written outside /verif/evidence, and exit code 1 with a VIOLATION line is expected.
 cd "$(dirname "$0")/.."
+WT=/tmp/vf_seedwt
+git -C /repo worktree remove --force $WT 2>/dev/null
+git -C /repo worktree add -q --detach $WT HEAD || exit 2
 for d in /verif/seeded/C*; do
   N=$(basename $d); P=$(echo $N | cut -c1-3)
+  git -C $WT checkout -q -- .
   # revert.diff (optional): undoes a later "fix:" commit without which the seeded change is no longer reachable
-  if [ -f $d/revert.diff ]; then git -C /repo apply $d/revert.diff || { echo "$N: revert.diff does not apply"; git -C /repo checkout -- .; continue; }; fi
-  if ! git -C /repo apply --check $d/patch.diff 2>/dev/null; then echo "$N: patch no longer applies to /repo HEAD"; git -C /repo checkout -- .; continue; fi
-  git -C /repo apply $d/patch.diff
-  timeout 3000 ./check $P --tier quick > /tmp/seedv_$N.log 2>&1; rc=$?
-  git -C /repo checkout -- .
+  if [ -f $d/revert.diff ]; then git -C $WT apply $d/revert.diff || { echo "$N: revert.diff does not apply"; continue; }; fi
+  if ! git -C $WT apply --check $d/patch.diff 2>/dev/null; then echo "$N: patch no longer applies to /repo HEAD"; continue; fi
+  git -C $WT apply $d/patch.diff
+  VERIF_REPO=$WT VERIF_EVIDENCE_DIR=/tmp/vf_seed_evidence timeout 3000 ./check $P --tier quick > /tmp/seedv_$N.log 2>&1; rc=$?
   echo "$N rc=$rc $(grep -c '^VIOLATION' /tmp/seedv_$N.log) violations: $(grep '^  key' /tmp/seedv_$N.log | head -2 | cut -c1-90 | tr '\n' ';')"
 done
+git -C /repo worktree remove --force $WT
+rm -rf /tmp/vf_seed_evidence
 git -C /repo status --short | head -3
